@@ -23,7 +23,14 @@ RULE = ("translator (T): the name chain of solver._get_backend_by_name, the dete
         "(backend argument, config.default_backend, backend_path), and program capture of every graph helper for every "
         "(explicit argument, config flags, acyclic, graph given/inferred) -- each compared with the extracted Coq model. "
         "search: the same observations against an independent Python restatement of the property. A case is "
-        "non-trivial when it is a distinct (kind, input) tuple.")
+        "non-trivial when it is a distinct (kind, input) tuple.  Hardened classes: every availability pattern x every way an unavailable "
+        "module can fail to import (None in sys.modules, a meta-path finder raising ImportError / a subclass of it / ModuleNotFoundError "
+        "naming a missing dependency / ModuleNotFoundError naming the module; fresh interpreters with module files failing the same ways) x "
+        "Config(infer) / Config(infer_from_env=infer) / Config(); histories on ONE Solver: 2-3 find_answer/solve calls with "
+        "config.default_backend / backend_path / the backend argument (None, name, user class, real backend class) / the call form "
+        "(keyword, positional, omitted) changed in between, and 2-3 graph helper calls with the configuration flags and the explicit "
+        "argument changed in between (native operators counted among the constraints each call added) -- call i must equal the stateless "
+        "model / the specification on call i's own inputs.")
 TRUSTED = [
     "harness/c20_translate.py (Python ast, fail-closed) and the instrumentation in harness/pC20.py (fake modules in sys.modules, patched run_subprocess / importlib proxy, scan of Solver.constraints for Op.GRAPH_*)",
     "extraction additionally uses the standard ExtrOcamlString (ascii -> char, string -> char list)",
@@ -32,7 +39,7 @@ TRUSTED = [
 ]
 ASSUMPTIONS = [
     "backend argument is None, a str, or a class (the annotated domain); config.use_graph_* hold bools; explicit use_graph_primitive is None/True/False",
-    "importing a backend module either succeeds or raises ImportError (what _detect_backend catches)",
+    "importing a backend module either succeeds or raises ImportError or a subclass of it (what _detect_backend catches); other exception types are outside the model",
     "environment values are strings without NUL (POSIX)",
 ]
 
